@@ -26,6 +26,7 @@ from vectorizers.utils import str_to_bytes
 import scipy.sparse
 
 import os
+import shutil
 import tempfile
 
 from types import GeneratorType
@@ -722,57 +723,61 @@ def lot_vectors_sparse(
     singular_values = None
     components = None
 
-    memmap_filename = os.path.join(tempfile.mkdtemp(dir=cachedir), "lot_tmp_memmap.dat")
-    saved_blocks = np.memmap(
-        memmap_filename,
-        mode="w+",
-        shape=(n_rows, reference_vectors.size),
-        dtype=np.float32,
-    )
-
-    for i in range(n_blocks):
-        block_start = i * block_size
-        block_end = min(n_rows, block_start + block_size)
-        block = lot_vectors_sparse_internal(
-            weight_matrix.indptr[block_start : block_end + 1],
-            weight_matrix.indices,
-            weight_matrix.data,
-            sample_vectors,
-            reference_vectors,
-            reference_distribution,
-            metric=metric,
-            max_distribution_size=max_distribution_size,
-            chunk_size=chunk_size,
-            spherical_vectors=(metric == cosine),
+    memmap_dir = tempfile.mkdtemp(dir=cachedir)
+    memmap_filename = os.path.join(memmap_dir, "lot_tmp_memmap.dat")
+    try:
+        saved_blocks = np.memmap(
+            memmap_filename,
+            mode="w+",
+            shape=(n_rows, reference_vectors.size),
+            dtype=np.float32,
         )
 
-        if singular_values is not None:
-            block_to_learn = np.vstack(
-                (singular_values.reshape(-1, 1) * components, block)
+        for i in range(n_blocks):
+            block_start = i * block_size
+            block_end = min(n_rows, block_start + block_size)
+            block = lot_vectors_sparse_internal(
+                weight_matrix.indptr[block_start : block_end + 1],
+                weight_matrix.indices,
+                weight_matrix.data,
+                sample_vectors,
+                reference_vectors,
+                reference_distribution,
+                metric=metric,
+                max_distribution_size=max_distribution_size,
+                chunk_size=chunk_size,
+                spherical_vectors=(metric == cosine),
             )
-        else:
-            block_to_learn = block
 
-        u, singular_values, v = randomized_svd(
-            block_to_learn,
-            n_components=n_components,
-            n_iter=n_svd_iter,
-            random_state=random_state,
+            if singular_values is not None:
+                block_to_learn = np.vstack(
+                    (singular_values.reshape(-1, 1) * components, block)
+                )
+            else:
+                block_to_learn = block
+
+            u, singular_values, v = randomized_svd(
+                block_to_learn,
+                n_components=n_components,
+                n_iter=n_svd_iter,
+                random_state=random_state,
+            )
+            u, components = svd_flip(u, v)
+            saved_blocks[block_start:block_end] = block
+
+        saved_blocks.flush()
+        del saved_blocks
+        saved_blocks = np.memmap(
+            memmap_filename,
+            mode="r",
+            shape=(n_rows, reference_vectors.size),
+            dtype=np.float32,
         )
-        u, components = svd_flip(u, v)
-        saved_blocks[block_start:block_end] = block
-
-    saved_blocks.flush()
-    del saved_blocks
-    saved_blocks = np.memmap(
-        memmap_filename,
-        mode="r",
-        shape=(n_rows, reference_vectors.size),
-        dtype=np.float32,
-    )
-    result = saved_blocks @ components.T
-    del saved_blocks
-    os.remove(memmap_filename)
+        result = saved_blocks @ components.T
+        del saved_blocks
+    finally:
+        # the scratch file and its directory go away whether or not a block failed
+        shutil.rmtree(memmap_dir, ignore_errors=True)
 
     return result, components
 
@@ -901,57 +906,61 @@ def lot_vectors_dense(
     singular_values = None
     components = None
 
-    memmap_filename = os.path.join(tempfile.mkdtemp(dir=cachedir), "lot_tmp_memmap.dat")
-    saved_blocks = np.memmap(
-        memmap_filename,
-        mode="w+",
-        shape=(n_rows, reference_vectors.size),
-        dtype=np.float32,
-    )
-
-    for i in range(n_blocks):
-        block_start = i * block_size
-        block_end = min(n_rows, block_start + block_size)
-        if block_start == block_end:
-            continue
-        block = lot_vectors_dense_internal(
-            sample_vectors[block_start:block_end],
-            sample_distributions[block_start:block_end],
-            reference_vectors,
-            reference_distribution,
-            metric=metric,
-            max_distribution_size=max_distribution_size,
-            chunk_size=chunk_size,
-            spherical_vectors=(metric == cosine),
+    memmap_dir = tempfile.mkdtemp(dir=cachedir)
+    memmap_filename = os.path.join(memmap_dir, "lot_tmp_memmap.dat")
+    try:
+        saved_blocks = np.memmap(
+            memmap_filename,
+            mode="w+",
+            shape=(n_rows, reference_vectors.size),
+            dtype=np.float32,
         )
 
-        if singular_values is not None:
-            block_to_learn = np.vstack(
-                (singular_values.reshape(-1, 1) * components, block)
+        for i in range(n_blocks):
+            block_start = i * block_size
+            block_end = min(n_rows, block_start + block_size)
+            if block_start == block_end:
+                continue
+            block = lot_vectors_dense_internal(
+                sample_vectors[block_start:block_end],
+                sample_distributions[block_start:block_end],
+                reference_vectors,
+                reference_distribution,
+                metric=metric,
+                max_distribution_size=max_distribution_size,
+                chunk_size=chunk_size,
+                spherical_vectors=(metric == cosine),
             )
-        else:
-            block_to_learn = block
 
-        u, singular_values, v = randomized_svd(
-            block_to_learn,
-            n_components=n_components,
-            n_iter=n_svd_iter,
-            random_state=random_state,
+            if singular_values is not None:
+                block_to_learn = np.vstack(
+                    (singular_values.reshape(-1, 1) * components, block)
+                )
+            else:
+                block_to_learn = block
+
+            u, singular_values, v = randomized_svd(
+                block_to_learn,
+                n_components=n_components,
+                n_iter=n_svd_iter,
+                random_state=random_state,
+            )
+            u, components = svd_flip(u, v)
+            saved_blocks[block_start:block_end] = block
+
+        saved_blocks.flush()
+        del saved_blocks
+        saved_blocks = np.memmap(
+            memmap_filename,
+            mode="r",
+            shape=(n_rows, reference_vectors.size),
+            dtype=np.float32,
         )
-        u, components = svd_flip(u, v)
-        saved_blocks[block_start:block_end] = block
-
-    saved_blocks.flush()
-    del saved_blocks
-    saved_blocks = np.memmap(
-        memmap_filename,
-        mode="r",
-        shape=(n_rows, reference_vectors.size),
-        dtype=np.float32,
-    )
-    result = saved_blocks @ components.T
-    del saved_blocks
-    os.remove(memmap_filename)
+        result = saved_blocks @ components.T
+        del saved_blocks
+    finally:
+        # the scratch file and its directory go away whether or not a block failed
+        shutil.rmtree(memmap_dir, ignore_errors=True)
 
     return result, components
 
@@ -1096,77 +1105,81 @@ def lot_vectors_dense_generator(
     singular_values = None
     components = None
 
-    memmap_filename = os.path.join(tempfile.mkdtemp(dir=cachedir), "lot_tmp_memmap.dat")
-    saved_blocks = np.memmap(
-        memmap_filename,
-        mode="w+",
-        shape=(n_rows, reference_vectors.size),
-        dtype=np.float32,
-    )
+    memmap_dir = tempfile.mkdtemp(dir=cachedir)
+    memmap_filename = os.path.join(memmap_dir, "lot_tmp_memmap.dat")
+    try:
+        saved_blocks = np.memmap(
+            memmap_filename,
+            mode="w+",
+            shape=(n_rows, reference_vectors.size),
+            dtype=np.float32,
+        )
 
-    for i in range(n_blocks):
-        block_start = i * block_size
-        block_end = min(n_rows, block_start + block_size)
-        if block_start == block_end:
-            continue
-
-        n_chunks = ((block_end - block_start) // chunk_size) + 1
-        lot_chunks = []
-        chunk_start = block_start
-        for j in range(n_chunks):
-            next_chunk_size = min(chunk_size, block_end - chunk_start)
-            vector_chunk, distribution_chunk = _chunks_from_generators(
-                sample_vectors, sample_distributions, next_chunk_size
-            )
-            if len(vector_chunk) == 0:
+        for i in range(n_blocks):
+            block_start = i * block_size
+            block_end = min(n_rows, block_start + block_size)
+            if block_start == block_end:
                 continue
 
-            if metric == cosine:
-                vector_chunk = tuple([normalize(v, norm="l2") for v in vector_chunk])
+            n_chunks = ((block_end - block_start) // chunk_size) + 1
+            lot_chunks = []
+            chunk_start = block_start
+            for j in range(n_chunks):
+                next_chunk_size = min(chunk_size, block_end - chunk_start)
+                vector_chunk, distribution_chunk = _chunks_from_generators(
+                    sample_vectors, sample_distributions, next_chunk_size
+                )
+                if len(vector_chunk) == 0:
+                    continue
 
-            chunk_of_lot_vectors = lot_vectors_dense_internal(
-                vector_chunk,
-                distribution_chunk,
-                reference_vectors,
-                reference_distribution,
-                metric=metric,
-                max_distribution_size=max_distribution_size,
-                chunk_size=chunk_size,
-                spherical_vectors=(metric == cosine),
+                if metric == cosine:
+                    vector_chunk = tuple([normalize(v, norm="l2") for v in vector_chunk])
+
+                chunk_of_lot_vectors = lot_vectors_dense_internal(
+                    vector_chunk,
+                    distribution_chunk,
+                    reference_vectors,
+                    reference_distribution,
+                    metric=metric,
+                    max_distribution_size=max_distribution_size,
+                    chunk_size=chunk_size,
+                    spherical_vectors=(metric == cosine),
+                )
+                lot_chunks.append(chunk_of_lot_vectors)
+
+                chunk_start += next_chunk_size
+
+            block = np.vstack(lot_chunks)
+
+            if singular_values is not None:
+                block_to_learn = np.vstack(
+                    (singular_values.reshape(-1, 1) * components, block)
+                )
+            else:
+                block_to_learn = block
+
+            u, singular_values, v = randomized_svd(
+                block_to_learn,
+                n_components=n_components,
+                n_iter=n_svd_iter,
+                random_state=random_state,
             )
-            lot_chunks.append(chunk_of_lot_vectors)
+            u, components = svd_flip(u, v)
+            saved_blocks[block_start:block_end] = block
 
-            chunk_start += next_chunk_size
-
-        block = np.vstack(lot_chunks)
-
-        if singular_values is not None:
-            block_to_learn = np.vstack(
-                (singular_values.reshape(-1, 1) * components, block)
-            )
-        else:
-            block_to_learn = block
-
-        u, singular_values, v = randomized_svd(
-            block_to_learn,
-            n_components=n_components,
-            n_iter=n_svd_iter,
-            random_state=random_state,
+        saved_blocks.flush()
+        del saved_blocks
+        saved_blocks = np.memmap(
+            memmap_filename,
+            mode="r",
+            shape=(n_rows, reference_vectors.size),
+            dtype=np.float32,
         )
-        u, components = svd_flip(u, v)
-        saved_blocks[block_start:block_end] = block
-
-    saved_blocks.flush()
-    del saved_blocks
-    saved_blocks = np.memmap(
-        memmap_filename,
-        mode="r",
-        shape=(n_rows, reference_vectors.size),
-        dtype=np.float32,
-    )
-    result = saved_blocks @ components.T
-    del saved_blocks
-    os.remove(memmap_filename)
+        result = saved_blocks @ components.T
+        del saved_blocks
+    finally:
+        # the scratch file and its directory go away whether or not a block failed
+        shutil.rmtree(memmap_dir, ignore_errors=True)
 
     return result, components
 
@@ -1303,70 +1316,74 @@ def sinkhorn_vectors_sparse(
     singular_values = None
     components = None
 
-    memmap_filename = os.path.join(tempfile.mkdtemp(dir=cachedir), "lot_tmp_memmap.dat")
-    saved_blocks = np.memmap(
-        memmap_filename,
-        mode="w+",
-        shape=(n_rows, reference_vectors.size),
-        dtype=np.float32,
-    )
-
-    for i in range(n_blocks):
-        block_start = i * block_size
-        block_end = min(n_rows, block_start + block_size)
-        if block_start == block_end:
-            continue
-
-        n_chunks = ((block_end - block_start) // chunk_size) + 1
-        completed_chunks = []
-        for j in range(n_chunks):
-            chunk_start = j * chunk_size + block_start
-            chunk_end = min(block_end, chunk_start + chunk_size)
-            if chunk_end > chunk_start:
-                raw_chunk = weight_matrix[chunk_start:chunk_end]
-                col_sums = np.squeeze(np.array(raw_chunk.sum(axis=0)))
-                sub_chunk = raw_chunk[:, col_sums > 0].astype(np.float64).toarray()
-                sub_vectors = sample_vectors[col_sums > 0]
-                sub_cost = full_cost[:, col_sums > 0]
-                completed_chunks.append(
-                    sinkhorn_vectors_sparse_internal(
-                        sub_chunk,
-                        sub_vectors,
-                        reference_distribution,
-                        reference_vectors,
-                        sub_cost,
-                    )
-                )
-
-        block = np.vstack(completed_chunks)
-
-        if singular_values is not None:
-            block_to_learn = np.vstack(
-                (singular_values.reshape(-1, 1) * components, block)
-            )
-        else:
-            block_to_learn = block
-
-        u, singular_values, v = randomized_svd(
-            block_to_learn,
-            n_components=n_components,
-            n_iter=n_svd_iter,
-            random_state=random_state,
+    memmap_dir = tempfile.mkdtemp(dir=cachedir)
+    memmap_filename = os.path.join(memmap_dir, "lot_tmp_memmap.dat")
+    try:
+        saved_blocks = np.memmap(
+            memmap_filename,
+            mode="w+",
+            shape=(n_rows, reference_vectors.size),
+            dtype=np.float32,
         )
-        u, components = svd_flip(u, v)
-        saved_blocks[block_start:block_end] = block
 
-    saved_blocks.flush()
-    del saved_blocks
-    saved_blocks = np.memmap(
-        memmap_filename,
-        mode="r",
-        shape=(n_rows, reference_vectors.size),
-        dtype=np.float32,
-    )
-    result = saved_blocks @ components.T
-    del saved_blocks
-    os.remove(memmap_filename)
+        for i in range(n_blocks):
+            block_start = i * block_size
+            block_end = min(n_rows, block_start + block_size)
+            if block_start == block_end:
+                continue
+
+            n_chunks = ((block_end - block_start) // chunk_size) + 1
+            completed_chunks = []
+            for j in range(n_chunks):
+                chunk_start = j * chunk_size + block_start
+                chunk_end = min(block_end, chunk_start + chunk_size)
+                if chunk_end > chunk_start:
+                    raw_chunk = weight_matrix[chunk_start:chunk_end]
+                    col_sums = np.squeeze(np.array(raw_chunk.sum(axis=0)))
+                    sub_chunk = raw_chunk[:, col_sums > 0].astype(np.float64).toarray()
+                    sub_vectors = sample_vectors[col_sums > 0]
+                    sub_cost = full_cost[:, col_sums > 0]
+                    completed_chunks.append(
+                        sinkhorn_vectors_sparse_internal(
+                            sub_chunk,
+                            sub_vectors,
+                            reference_distribution,
+                            reference_vectors,
+                            sub_cost,
+                        )
+                    )
+
+            block = np.vstack(completed_chunks)
+
+            if singular_values is not None:
+                block_to_learn = np.vstack(
+                    (singular_values.reshape(-1, 1) * components, block)
+                )
+            else:
+                block_to_learn = block
+
+            u, singular_values, v = randomized_svd(
+                block_to_learn,
+                n_components=n_components,
+                n_iter=n_svd_iter,
+                random_state=random_state,
+            )
+            u, components = svd_flip(u, v)
+            saved_blocks[block_start:block_end] = block
+
+        saved_blocks.flush()
+        del saved_blocks
+        saved_blocks = np.memmap(
+            memmap_filename,
+            mode="r",
+            shape=(n_rows, reference_vectors.size),
+            dtype=np.float32,
+        )
+        result = saved_blocks @ components.T
+        del saved_blocks
+    finally:
+        # the scratch file and its directory go away whether or not a block failed
+        shutil.rmtree(memmap_dir, ignore_errors=True)
 
     return result, components
 
